@@ -192,7 +192,23 @@ def run(spec):
         res["wall_s"] = round(time.time() - t_start, 1)
         return res
     # one query for "some violation, or some thread left unfinished by the step bounds"
-    unfinished = z3.And(z3.Not(done_end), z3.Not(stuck))
+    # a thread left unfinished by its step bound - unless the last steps of its final chunk are a wait loop (it is waiting
+    # for a thread that this shape does not schedule again before the chunk ends: that execution belongs to the family
+    # with one more context switch, not to this one)
+    unf = []
+    last_chunk = {}
+    for ci, (ti, n) in enumerate(chunks):
+        last_chunk[ti] = ci
+    for ti in alive:
+        ke = sum(n for (_, n) in chunks[: last_chunk[ti] + 1])
+        waits = []
+        for per in (1, 2, 3):
+            if ke - per >= 0:
+                cyc = M.cycle(ke - per, per)
+                if cyc is not None:
+                    waits.append(cyc)
+        unf.append(z3.And(z3.Not(M.finished(K, ti)), z3.Not(z3.Or(waits)) if waits else z3.BoolVal(True)))
+    unfinished = z3.And(z3.Or(unf), z3.Not(stuck))
     r, m = ask("violation or step bound exceeded", [z3.Or(viol, unfinished)])
     if r == "sat" and not z3.is_true(m.eval(viol, model_completion=True)):
         # only the bound disjunct is satisfiable in this model: ask for a real violation separately
